@@ -543,3 +543,21 @@ def show_word(w):
         else:
             out.append('\\x%02x' % x)
     return '`' + ''.join(out) + '`' if out else '(the empty text)'
+
+
+def accepts(nfa, frag, data):
+    """membership of a byte string in the language of a fragment (no symbol transitions are taken)"""
+    start, end = frag
+    cur = nfa.closure([(start, None)])
+    for b in data:
+        nxt = set()
+        for s, c in cur:
+            if c == 'eof' or (c is not None and b not in c):
+                continue
+            for label, d in nfa.tr.get(s, ()):
+                if isinstance(label, frozenset) and b in label:
+                    nxt.add((d, None))
+        if not nxt:
+            return False
+        cur = nfa.closure(nxt)
+    return any(s == end and (c is None or c == 'eof') for s, c in cur)
